@@ -1,16 +1,17 @@
 (* stdin: "<id> <slot-bits> <machine: src|fixed> <program>"   program: threads '|', ops ',' :
-     R retire   L lock (own accessor)   U unlock   B start   S stop
+     R retire   L lock (own accessor)   U unlock   B start   S stop   W wait for the other client threads
    Explores every interleaving of the extracted GCModel machine (client threads + collector thread) and prints
    the set of admissible outcomes:  per-thread results ' calls=' reclaimer calls in order with the slots open at
    the call.  A terminal state in which some client thread is not finished is printed with the suffix STUCK. *)
 let parse_op (o : string) : op =
   match o.[0] with
-  | 'R' -> ORetire | 'L' -> OLock | 'U' -> OUnlock | 'B' -> OStart | 'S' -> OStop
+  | 'R' -> ORetire | 'L' -> OLock | 'U' -> OUnlock | 'B' -> OStart | 'S' -> OStop | 'W' -> OWait
   | _ -> failwith ("bad op " ^ o)
 
 let show_res (r : res) : string =
   match r with
   | RRetire _ -> "R" | RLock -> "L" | RUnlock -> "U" | RSkip -> "-"
+  | RWait -> "W"
   | RStart b -> if b then "B1" else "B0"
   | RStop (j, _, n) -> Printf.sprintf "S%d:%d" (if j then 1 else 0) (int_of_nat n)
 
